@@ -40,6 +40,22 @@ func HPathKernel() {
 	nd.Reach("end")
 }
 
+// HLongKeys: keys far longer than a file-name component allows (a common prefix of PRE bytes and
+// one free byte each): distinct keys still never share a path (the file system may refuse such a
+// name; aliasing another key is what must not happen).
+func HLongKeys() {
+	st := newStore(nd.Choose("setup", 3))
+	pres := []int{40, 100, 158, 159, 160, 161, 200, 320}
+	pre := strings.Repeat("k", pres[nd.Choose("pre", nd.Param("PRES", len(pres)))])
+	k1 := pre + nd.String("k1", nd.Choose("len1", 3))
+	k2 := pre + nd.String("k2", nd.Choose("len2", 3))
+	var p1, p2 string
+	nd.NoPanic("pathForKey", func() { p1, p2 = st.pathForKey(k1), st.pathForKey(k2) })
+	nd.Assert(nd.Implies(p1 == p2, k1 == k2), "long keys that differ never map to the same path")
+	nd.Assert(strings.HasPrefix(filepath.Clean(p1), "/b/"), "the path of a long key lies inside the base directory")
+	nd.Reach("end")
+}
+
 // ---------------- C17: key-value behaviour on the model file system ----------------
 
 func initStore(custom int) *Store {
